@@ -158,6 +158,19 @@ def check_case(chk, probe, model, case, moves, ns, rng, dist):
             chk.tie_break("model", "mosmodel_c11 failed on a listing request: %s" % str(m)[:300], replay)
             continue
         nontrivial = len(impl["source_map"]) > 0
+        # the width guard of to_listing (1..=256): widths outside are a diagnostic, in the model and in the implementation
+        if case.gen is None or rng.random() < 0.1:
+            gw = [0, 256, 257, rng.choice([1, 16, 300, 70000])]
+            ri = probe.call(dict(req, ns=gw))
+            rm = model.call({"cmd": "listing", "files": jfiles, "sm": sm, "segs": segs, "ns": gw, "ems": []})
+            for w in gw:
+                li = ri.get("listings", {}).get(str(w))
+                acc_i = isinstance(li, dict) and "errors" not in li and "panic" not in li
+                if isinstance(li, dict) and "panic" in li:
+                    chk.oracle_failure(None, "to_listing(%d) panics: %s" % (w, li["panic"]), dict(replay, n=w))
+                if acc_i != rm.get("accepted", {}).get(str(w)):
+                    chk.tie_break("correspondence:to_listing_checked", "width %d: implementation %s, model %s" % (
+                        w, "accepts" if acc_i else "rejects", rm.get("accepted", {}).get(str(w))), dict(replay, n=w))
         for n in ns:
             real = impl["listings"].get(str(n))
             if not isinstance(real, dict) or "panic" in real or "errors" in real:
